@@ -391,6 +391,21 @@ func (fc *FuncCtx) applyContract(con *Contract, callee *ssa.Function, sig *types
 	ord := fc.ordinal("call@" + shortCallee(key))
 	site := fmt.Sprintf("%s#%d", shortCallee(key), ord)
 	envPre := &Env{fc: fc, vars: vars, st: st, old: st}
+	// ground hints: elements of literal variadic slices, in the elem_X form contracts use
+	if in, ok := fc.curInstr.(ssa.CallInstruction); ok {
+		cargs := in.Common().Args
+		for k, ca := range cargs {
+			if lits := fc.varargElems(ca, st); lits != nil {
+				sl := ca.Type().Underlying().(*types.Slice)
+				h := st.get(eng.elemHeap(sl.Elem()))
+				tv := fc.v(ca)
+				for j, el := range lits {
+					q.assume(fmt.Sprintf("(= (%s %s %s %d) %s)", eng.elemFn(eng.sorts.sortOf(sl.Elem())), h, tv.T, j, el))
+				}
+				_ = k
+			}
+		}
+	}
 	if callee != nil && callee.Signature.Recv() != nil && !con.NilRecv && !con.Trusted {
 		if _, ok := callee.Params[0].Type().Underlying().(*types.Pointer); ok {
 			fc.oblige("pre@"+site, "recv-nonnil", reach, "(not (= "+args[0].T+" 0))", "receiver of "+shortCallee(key)+" is non-nil", nil)
@@ -550,6 +565,13 @@ func (fc *FuncCtx) havocTarget(env *Env, target Expr, st *State, base string) {
 			for _, h := range eng.groupHeaps(c.Args[0].(EIdent).Name) {
 				st.havoc(h)
 			}
+			return
+		case "cell":
+			// cell("C.T", ref): one cell of a named heap
+			h := c.Args[0].(EStr).Val
+			ref := env.tr(c.Args[1])
+			fresh := fc.q.fresh(fc.pfx+base, arrayElemSort(eng.heapSort(h)))
+			st.set(h, fmt.Sprintf("(store %s %s %s)", st.get(h), ref.T, fresh))
 			return
 		case "fields":
 			// fields(p): every field of the object p points to
@@ -1047,6 +1069,8 @@ func (e *Engine) contractMods(con *Contract, callee *ssa.Function, sig *types.Si
 				for _, h := range e.groupHeaps(x.Args[0].(EIdent).Name) {
 					out[h] = true
 				}
+			case "cell":
+				out[x.Args[0].(EStr).Val] = true
 			case "fields":
 				if t := typeOf(x.Args[0]); t != nil {
 					if el, ok := deref(t); ok {
@@ -1136,9 +1160,13 @@ func (fc *FuncCtx) frameTargets() (byHeap map[string][]string, ghosts map[string
 				whole[c.Args[0].(EStr).Val] = true
 				continue
 			case "group":
-				for _, h := range fc.eng.groupHeaps(c.Args[0].(EIdent).Name) {
-					whole[h] = true
+				for _, pfx := range fc.eng.cs.Spec.Groups[c.Args[0].(EIdent).Name] {
+					whole["prefix:"+pfx] = true
 				}
+				continue
+			case "cell":
+				h := c.Args[0].(EStr).Val
+				byHeap[h] = append(byHeap[h], env.tr(c.Args[1]).T)
 				continue
 			case "fields":
 				v := env.tr(c.Args[0])
@@ -1180,6 +1208,11 @@ func (fc *FuncCtx) frameFormula(h string, st *State) string {
 	byHeap, ghosts, whole := fc.frameTargets()
 	if whole["*"] || whole[h] || isBookkeepingHeap(h) {
 		return "true"
+	}
+	for k := range whole {
+		if strings.HasPrefix(k, "prefix:") && strings.HasPrefix(h, k[7:]) {
+			return "true"
+		}
 	}
 	if strings.HasPrefix(h, "G.") {
 		if ghosts[h] {
